@@ -1,6 +1,7 @@
 (* ScreenInv.v — the invariant of a whole screen / parser and its preservation by
    every action, API call and history (backbone of C03, C13, C16). *)
 Require Import Tac ListN Attrs Cell Row Grid Screen Vte Perform Parser RowInv GridInv TextInv.
+Require Import Chunking.
 Open Scope N_scope.
 
 Record screen_ok (s : screen) : Prop := mkScreenOk {
@@ -354,13 +355,27 @@ Proof.
 Qed.
 
 (* ---- the parser API ---- *)
-Definition parser_ok (p : parser) : Prop := screen_ok (scr p).
+(* the screen invariant, plus the invariant of the held-back utf-8 tail (Chunking.pend_inv):
+   vte's state is well-formed, [pend p] is empty or an incomplete utf-8 sequence (at most 3 bytes),
+   and vte's own partial buffer is empty whenever nothing is held back *)
+Definition parser_ok (p : parser) : Prop := screen_ok (scr p) /\ pend_inv p.
+
+Lemma parser_ok_scr p : parser_ok p -> screen_ok (scr p).
+Proof. intros [H _]. exact H. Qed.
+Lemma parser_ok_pend p : parser_ok p -> pend_inv p.
+Proof. intros [_ H]. exact H. Qed.
+Lemma parser_ok_with_scr p s : parser_ok p -> screen_ok s -> parser_ok (with_scr p s).
+Proof. intros [_ [W P T]] O. split; [exact O|]. split; assumption. Qed.
 
 Lemma process_ok p bs : parser_ok p -> exists q, process p bs = Ok q /\ parser_ok q.
 Proof.
-  intros H. unfold process. destruct (advance (vt p) bs) as [v acts].
-  destruct (perform_all_ok (resizing p) acts (scr p) [] H) as (s & e & -> & O). cbn [bind].
-  eexists; split; [reflexivity|exact O].
+  intros [H I].
+  assert (X : exists q, process p bs = Ok q /\ screen_ok (scr q)).
+  { rewrite process_unfold. destruct (advance (vt p) _) as [v acts].
+    destruct (perform_all_ok (resizing p) acts (scr p) [] H) as (s & e & -> & O). cbn [bind].
+    eexists; split; [reflexivity|exact O]. }
+  destruct X as (q & E & O). exists q. split; [exact E|]. split; [exact O|].
+  exact (process_pend_inv p bs q I E).
 Qed.
 
 (* API arguments in the contract: sizes between 1 and MAXDIM *)
@@ -375,9 +390,9 @@ Proof.
   intros H Ho. destruct o; cbn [step].
   - now apply process_ok.
   - unfold write. destruct (process_ok p bs H) as (q & -> & O). cbn [bind]. eauto.
-  - destruct Ho as [Hr Hc]. destruct (screen_set_size_ok (scr p) r c H Hr Hc) as (s & -> & O & _). cbn [bind].
-    eexists; split; [reflexivity|exact O].
-  - eexists; split; [reflexivity|]. now apply screen_set_scrollback_ok.
+  - destruct Ho as [Hr Hc]. destruct (screen_set_size_ok (scr p) r c (parser_ok_scr p H) Hr Hc) as (s & -> & O & _). cbn [bind].
+    eexists; split; [reflexivity|exact (parser_ok_with_scr p s H O)].
+  - eexists; split; [reflexivity|]. apply (parser_ok_with_scr p _ H). apply screen_set_scrollback_ok. exact (parser_ok_scr p H).
 Qed.
 
 Theorem run_ok ops : forall p, parser_ok p -> Forall op_ok ops -> exists q, run p ops = Ok q /\ parser_ok q.
@@ -390,6 +405,7 @@ Qed.
 Theorem parser_new_ok rows cols cap rz : 1 <= rows <= MAXDIM -> 1 <= cols <= MAXDIM ->
   exists p, parser_new rows cols cap rz = Ok p /\ parser_ok p.
 Proof.
-  intros Hr Hc. unfold parser_new. destruct (screen_new_ok rows cols cap Hr Hc) as (s & -> & O & _). cbn [bind].
-  eexists; split; [reflexivity|exact O].
+  intros Hr Hc. destruct (screen_new_ok rows cols cap Hr Hc) as (s & E & O & _).
+  assert (E' : parser_new rows cols cap rz = Ok (mkParser p_init s [] rz [])) by (unfold parser_new; now rewrite E).
+  eexists; split; [exact E'|]. split; [exact O|exact (pend_inv_new _ _ _ _ _ E')].
 Qed.
